@@ -68,3 +68,16 @@ package topics
 //@   ensures [C30] defined: forall c string, id uint16 :: has(t, c, id) == (old(has(t, c, id)) || old(has(src, c, id)))
 //@   ensures [C30] src_wins: forall c string, id uint16 :: old(has(src, c, id)) ==> at(t, c, id) == old(at(src, c, id))
 //@   ensures [C30] rest_kept: forall c string, id uint16 :: !old(has(src, c, id)) && old(has(t, c, id)) ==> at(t, c, id) == old(at(t, c, id))
+
+// Reading the two sources. YAML decoding and the splitting/number parsing of an option are not verified:
+// trusted contracts state only the shape of what they return (fresh maps with fresh, unshared inner maps).
+// That ParsePredefinedTopicOptions applies its options in order through Add (proved above: the last definition wins)
+// is visible in its body but its loop is not under contract (A-PARSE).
+//@ func ReadPredefinedTopicsFile
+//@   trusted
+//@   ensures shape: result1 == nil ==> fresh(result0) && innerOK(result0) && (forall c string :: c in result0 ==> fresh(result0[c]))
+//@ func ParsePredefinedTopicOptions
+//@   trusted
+//@   ensures shape: result1 == nil ==> fresh(result0) && innerOK(result0) && (forall c string :: c in result0 ==> fresh(result0[c]))
+//@ assumption [C30] A-YAML: ReadPredefinedTopicsFile returns what the YAML file says as a fresh two-level map without null client entries (yaml.v3 decoding is not verified)
+//@ assumption [C30] A-PARSE: ParsePredefinedTopicOptions calls Add once per option, in the order given ("client;topic;id", client "*" when omitted); its loop, strings.Split and strconv.ParseUint are not under contract
